@@ -18,6 +18,18 @@ echo "tests: $(cat $TMPD/tests.out)"
 cd /verif
 VERIF_EVIDENCE_DIR=$TMPD/ev VERIF_REPLAY_DIR=$TMPD/rp ./check $P --repo "$WT" > $TMPD/check.out 2>&1; CHK=$?
 grep -E "^violation:|^VIOLATION|HARNESS|UNREPRO|quick:" $TMPD/check.out | cut -c1-400
+OTHERS=""
+if [ -n "${ALL:-}" ]; then
+  # a refactoring of shared code (Perm, Basis ...) must keep every other check silent as well
+  for Q in C01 C02 C07 C08 C09 C13 C20; do
+    [ "$Q" = "$P" ] && continue
+    VERIF_EVIDENCE_DIR=$TMPD/ev VERIF_REPLAY_DIR=$TMPD/rp ./check $Q --repo "$WT" > $TMPD/check_$Q.out 2>&1; R=$?
+    OTHERS="$OTHERS $Q=$R"
+    [ $R -ne 0 ] && { grep -E "^violation:|^VIOLATION|HARNESS|UNREPRO" $TMPD/check_$Q.out | cut -c1-300 | head -4; CHK=$((CHK ? CHK : 10 + R)); }
+  done
+  echo "other checks:$OTHERS"
+fi
+export OTHERS
 cd "$WT"; git checkout -q -- permuta; rm -rf dfa_db
 echo "check_exit=$CHK"
 mkdir -p /verif/benign/$ID; cp $SD/patch.diff /verif/benign/$ID/patch.diff
@@ -31,7 +43,8 @@ lines = [l.strip()[:400] for l in out.splitlines() if l.startswith(('violation:'
 meta.update({"property": prop, "confirmed_by_me": {
     "test_suite_on_patched_tree": open(os.environ['TMPD'] + '/tests.out').read().strip(),
     "check_command": f"./check {prop} --repo <scratch worktree with the refactoring applied>",
-    "check_exit": int(chk), "stayed_silent": int(chk) == 0, "lines": lines[:4]}})
+    "check_exit": int(chk), "stayed_silent": int(chk) == 0, "lines": lines[:4],
+    **({"other_checks_exit_codes": os.environ["OTHERS"].strip()} if os.environ.get("OTHERS", "").strip() else {})}})
 json.dump(meta, open(dst, 'w'), indent=1)
 PY
 rm -rf $TMPD
